@@ -9,7 +9,7 @@ THEOREMS = ["Drand.DKG." + t for t in [
     "c08_finished_only_by_completion", "c08_completion_whole", "c08_epoch_inv_step", "c08_finished_monotone",
     "c08_epoch_inv_run", "c08_retry_same_epoch", "c08_rejects_stale_epoch", "c08_rejects_same_epoch_unless_terminal",
     "c08_rejects_epoch_jump", "c08_rejects_expired", "c08_rejects_threshold_high", "c08_rejects_threshold_low",
-    "c08_rejects_unknown_scheme", "c08_rejects_bad_joiner_signature", "c08_member_rejects", "c08_first_epoch_rejects",
+    "c08_rejects_unknown_scheme", "c08_rejects_bad_joiner_signature", "c08_member_rejects", "c08_member_rejects_scheme_period", "c08_first_epoch_rejects",
     "c08_epoch_monotone_partial", "c08_epoch_counterexample"]]
 TRUSTED = ["Lean 4 kernel; axioms per theorem under coverage.axioms",
            "go2lean: Status enum, isValidStateChange switch, isProposalPhase, terminalStates, scheme ids (regenerated, tied by tie_* theorems)",
@@ -113,6 +113,8 @@ def oracle_history(mops, replies, now):
                 named = {addr_of(x) for x in t["R"] + t["V"]}
                 if t["genesis"] != src["genesis"] or t["seed"] != src["seed"]:
                     why = "a member accepted changed genesis parameters"
+                elif t["scheme"] != src["scheme"] or t.get("period", src["period"]) != src["period"]:
+                    why = "a member accepted a changed scheme or beacon period"
                 elif not members <= named:
                     why = f"a member accepted a proposal dropping current members {sorted(members - named)}"
                 elif t["epoch"] != src["epoch"] + 1:
